@@ -2,15 +2,19 @@
 (* S->C for C16: TLC enumerates the message-shape case analysis               *)
 (*   kind x init placement x body placement x source kind x destination kind   *)
 (*   x anycast x fee class (x body variant)                                    *)
-(* as abstract cases, and -- for external-in messages -- pairs of cases with   *)
-(* the relation MsgHash!CaseRelation requires between their normalised hashes. *)
-(* The Go harness concretises every case with the library (values are a        *)
-(* function of the identities destv / bodyv, everything the normalised hash    *)
-(* must ignore is drawn at random), records what the real code reports, and    *)
+(* and -- for external-in messages -- pairs of cases with the relation         *)
+(* MsgHash!CaseRelation requires between their normalised hashes.  Every case  *)
+(* is emitted as the *cell tree* MsgHash!EncMsg lays out for it (field values  *)
+(* come from samples.ndjson, written by the runner from the seed; destination  *)
+(* and body are functions of the identities destv / bodyv), so the source      *)
+(* cells the implementation decodes are the specification's, not the product   *)
+(* of the implementation's own encoder.  The Go harness only turns the table   *)
+(* into cells, decodes, and records what Hash(false)/Hash(true) report;        *)
 (* MsgHash_Trace judges the result against the cells.                          *)
 (*   Part = "case": every shape of the three kinds x 3 body variants           *)
-(*   Part = "pair": unordered pairs of external-in cases; Mode = "near": the   *)
-(*          two cases differ in exactly one coordinate; Mode = "all": all      *)
+(*   Part = "pair": the external-in cases ("msg" vectors, one per case) and    *)
+(*          unordered pairs of them by index; Mode = "near": the two cases     *)
+(*          differ in exactly one coordinate; Mode = "all": all pairs          *)
 EXTENDS MsgHash, Json
 CONSTANTS Part, Mode
 VARIABLE c
@@ -26,11 +30,35 @@ IntMsg == {ShapeOf("int", i, b, s, d, a, f) : i \in Inits, b \in Places, s \in I
 ExtOut == {ShapeOf("ext_out", i, b, s, d, a, "zero") : i \in Inits, b \in Places, s \in IntK, d \in ExtK, a \in BOOLEAN}
 Shapes == ExtIn \cup IntMsg \cup ExtOut
 WithIds(sh, dv, bv) == sh @@ [destv |-> dv, bodyv |-> bv]
+ShapeOfCase(cs) == ShapeOf(cs.kind, cs.init, cs.body, cs.src, cs.dest, cs.any, cs.fee)
+
+\* ---- concrete field values (inputs only; every layout is MsgHash's)
+S == ndJsonDeserialize("samples.ndjson")[1]
+RECURSIVE NodeOf(_)
+NodeOf(j) == [b |-> StrToBits(j.b), c |-> [i \in 1..Len(j.c) |-> NodeOf(j.c[i])]]
+NoAnycast == [d |-> 0, pfx |-> <<>>]
+MkAddr(kind, v, any) ==
+  CASE kind = "none"   -> [kind |-> "none"]
+    [] kind = "extern" -> [kind |-> "extern", ext |-> StrToBits(S.ext)]
+    [] OTHER -> LET a == (IF kind = "std" THEN S.std ELSE S.var)[v + 1] IN
+                [kind |-> kind, any |-> IF any THEN [d |-> a.any.d, pfx |-> StrToBits(a.any.pfx)] ELSE NoAnycast,
+                 wc |-> a.wc, addr |-> StrToBits(a.addr)]
+\* the anycast flag of a case sits on the internal address: destination of int / ext_in, source of ext_out
+Describe(cs) ==
+  [kind |-> cs.kind,
+   src  |-> CASE cs.kind = "ext_in" -> MkAddr(cs.src, 0, FALSE) [] cs.kind = "int" -> MkAddr(cs.src, 2, FALSE) [] OTHER -> MkAddr(cs.src, 2, cs.any),
+   dest |-> IF cs.kind = "ext_out" THEN MkAddr(cs.dest, 0, FALSE) ELSE MkAddr(cs.dest, cs.destv, cs.any),
+   fee  |-> IF cs.fee = "zero" THEN <<>> ELSE StrToBits(IF cs.kind = "int" THEN S.fwd ELSE S.fee),
+   flags |-> StrToBits(S.flags), value |-> StrToBits(S.value), ihr |-> StrToBits(S.ihr), lt |-> StrToBits(S.lt), at |-> StrToBits(S.at),
+   init |-> cs.init, si |-> NodeOf(IF cs.init = "ref" THEN S.si_ref ELSE S.si_inline),
+   body |-> cs.body, bd |-> NodeOf(S.bodies[cs.bodyv + 1])]
+TableOf(cs) == Flat(EncMsg(Describe(cs)))
+CellsOf(cs) == TableJson(TableOf(cs))
 
 \* ---- part "case"
 CaseGroups   == {<<k, i>> : k \in {"ext_in", "int", "ext_out"}, i \in Inits}
 CaseCases(g) == {WithIds(sh, 0, bv) : sh \in {x \in Shapes : x.kind = g[1] /\ x.init = g[2]}, bv \in 0..2}
-CaseOut(g, x) == [k |-> "case", c |-> x]
+CaseOut(g, x) == [k |-> "case", c |-> x, cells |-> CellsOf(x)]
 
 \* ---- part "pair"
 E     == SetToSeq({WithIds(sh, dv, bv) : sh \in ExtIn, dv \in 0..1, bv \in 0..2})
@@ -38,7 +66,8 @@ Coord == {"init", "body", "src", "dest", "any", "fee", "destv", "bodyv"}
 Dist(a, b) == Cardinality({f \in Coord : a[f] # b[f]})
 PairGroups   == 1..Len(E)
 PairCases(i) == {j \in (i + 1)..Len(E) : Mode = "all" \/ Dist(E[i], E[j]) = 1}
-PairOut(i, j) == [k |-> "pair", a |-> E[i], b |-> E[j], exp |-> CaseRelation(E[i], E[j])]
+PairOut(i, j) == [k |-> "pair", i |-> i, j |-> j, exp |-> CaseRelation(E[i], E[j])]
+MsgOut(i)    == [k |-> "msg", id |-> i, c |-> E[i], cells |-> CellsOf(E[i])]
 
 Groups   == IF Part = "case" THEN CaseGroups ELSE PairGroups
 Cases(g) == IF Part = "case" THEN CaseCases(g) ELSE PairCases(g)
@@ -47,13 +76,23 @@ Out(g, x) == IF Part = "case" THEN CaseOut(g, x) ELSE PairOut(g, x)
 Init == c \in {<<0, g, 0>> : g \in Groups}
 Next == c[1] = 0 /\ c' \in {<<1, c[2], x>> : x \in Cases(c[2])}
 Spec == Init /\ [][Next]_c
-Emit == c[1] = 1 => PrintT(<<"VEC", ToJson(Out(c[2], c[3]))>>)
+Emit == IF c[1] = 1 THEN PrintT(<<"VEC", ToJson(Out(c[2], c[3]))>>)
+        ELSE (Part = "pair" => PrintT(<<"VEC", ToJson(MsgOut(c[2]))>>))
 
-\* the rule is a relation on cases: symmetric, and "equal" is transitive through any third case
+\* The specification agrees with itself on everything it hands out: the cell it lays out for a case parses back (MsgParse)
+\* to that shape, destination and body; and the relation of two cases (CaseRelation) is the relation of their cells (PairRelation).
+ReadsBack(cs) ==
+  LET D == Describe(cs)  T == Flat(EncMsg(D))  mp == MsgParse(T, 1) IN
+  /\ mp.ok
+  /\ Shape(mp) = ShapeOfCase(cs)
+  /\ BodyHash(BodyTable(T, mp)) = BodyHash(Flat(D.bd))
+  /\ cs.kind # "ext_out" => DestBits(mp.info.dest, TRUE) = DestBits(D.dest, TRUE)
 Coherent ==
-  (c[1] = 1 /\ Part = "pair") =>
-     LET a == E[c[2]]  b == E[c[3]] IN
-     /\ CaseRelation(a, b) = CaseRelation(b, a)
-     /\ CaseRelation(a, a) = "equal"
-     /\ (CaseRelation(a, b) = "equal") <=> (a.dest = b.dest /\ a.any = b.any /\ a.destv = b.destv /\ a.bodyv = b.bodyv)
+  /\ (c[1] = 1 /\ Part = "case") => ReadsBack(c[3])
+  /\ (c[1] = 0 /\ Part = "pair") => ReadsBack(E[c[2]])
+  /\ (c[1] = 1 /\ Part = "pair") =>
+       LET a == E[c[2]]  b == E[c[3]]  Ta == TableOf(a)  Tb == TableOf(b) IN
+       /\ CaseRelation(a, b) = CaseRelation(b, a)
+       /\ CaseRelation(a, a) = "equal"
+       /\ (Mode = "near" => PairRelation(Ta, MsgParse(Ta, 1), Tb, MsgParse(Tb, 1)) = CaseRelation(a, b))
 =============================================================================
